@@ -22,7 +22,8 @@ DEFAULT = dict(
 
 PROFILES = {
     "core-mix": {},
-    "singleton": dict(w_invoke=10, p_fault=0.15, n_types=5, p_export=0.25, w_decorate=3),
+    "singleton": dict(w_invoke=10, p_fault=0.15, n_types=5, p_export=0.25, w_decorate=3, p_group_result=0.4,
+                      p_group_param=0.45, p_flatten=0.6, p_soft=0.2),
     "bystanders": dict(w_provide=12, w_invoke=4, p_soft=0.6, n_types=10),
     "gaps": dict(p_unknown_dep=0.25, p_foreign_dep=0.3, p_opt=0.5, p_fault=0.08, w_decorate=1, n_types=7),
     "cycles": dict(p_cycle=0.45, p_defer=0.5, p_export=0.3, w_provide=12, w_invoke=4, w_decorate=0.5,
@@ -212,9 +213,9 @@ class Gen:
                 flat = self.chance(self.p["p_flatten"])
                 l = dict(k="group", ty=k[1], group=k[2], flatten=flat, **{"as": []})
                 if not flat and self.chance(self.p["p_as"]):
-                    it = self.r.choice(IFACES)
-                    l["as"] = [it]
-                    k = ("g", it, k[2])
+                    its = self.r.sample(IFACES, self.r.choice([1, 2, 2]))
+                    l["as"] = its
+                    k = ("g", its[-1], k[2])
             else:
                 k = self.rand_single_key()
                 if self.wanted and self.chance(self.p["p_cycle"] + 0.3):
@@ -250,6 +251,8 @@ class Gen:
         for l in leaves:
             l["as"] = [t for t in (l.get("as") or []) if t not in tys]
         f = self.new_fn(params=self.structure_params(pleaves), results=results, err=self.chance(0.5))
+        if f["err"] and self.chance(0.25):
+            f["err_pos"] = self.r.randrange(len(results) + 1)    # the error result need not come last
         self.decorate_fn(f)
         self.ops.append(dict(op="provide", scope=s, fn=f["id"], export=export))
         # bookkeeping (optimistic: assume accepted)
